@@ -6,9 +6,11 @@ import CashewsVerif.Model.Decor.Hit
 /- Driver for C14: runs one history (`call` / `adv` / `done`) on the early / soft / failover / hit model.
 
   case <early|soft|fail|hit> ttl=<ticks> inner=<ticks> hits=<n> upd=<n> bg=<0|1>   -> ok
-  call <ok|lis|unl>            -> model=<fresh:s:id|stored:s:id|raised:lis|raised:unl|broken> x=<0|1> b=<0|1> n=<in flight>
+  call <outcome>               -> model=<fresh:s:id|stored:s:id|raised:lis|raised:unl|storeerr:lis|storeerr:unl|broken> x=<0|1> b=<0|1> n=<in flight>
   adv <ticks>                  -> model=ok n=<in flight>
-  done <i> <ok|lis|unl>        -> model=<noop|stored|failed> n=<in flight>
+  done <i> <outcome>           -> model=<noop|stored|skipped|failed> n=<in flight>
+  outcome = ok | lis | unl | rej (the condition turns the result down)
+          | preL | preU (condition / callable ttl raises a listed / unlisted exception) | setL | setU (backend.set raises)
 -/
 open CashewsVerif CashewsVerif.Proto CashewsVerif.Decor
 
@@ -20,10 +22,16 @@ inductive St where
   | hit (c : Hit.Cfg) (s : Hit.St)
 
 def parseOutcome? (s : String) : Option Outcome :=
-  if s = "ok" then some .ok else if s = "lis" then some .listed else if s = "unl" then some .unlisted else none
+  if s = "ok" then some .ok else if s = "lis" then some .listed else if s = "unl" then some .unlisted
+  else if s = "rej" then some .rejected
+  else if s = "preL" then some (.storeFails .pre true) else if s = "preU" then some (.storeFails .pre false)
+  else if s = "setL" then some (.storeFails .set true) else if s = "setU" then some (.storeFails .set false)
+  else none
 
 def showOutcome : Outcome → String
-  | .ok => "ok" | .listed => "lis" | .unlisted => "unl"
+  | .ok => "ok" | .listed => "lis" | .unlisted => "unl" | .rejected => "rej"
+  | .storeFails .pre true => "preL" | .storeFails .pre false => "preU"
+  | .storeFails .set true => "setL" | .storeFails .set false => "setU"
 
 def parseField? (name : String) (s : String) : Option Nat :=
   match s.splitOn "=" with
@@ -40,6 +48,7 @@ def showRes : Res → String
   | .fresh s i => s!"fresh:{s}:{i}"
   | .stored s i => s!"stored:{s}:{i}"
   | .raised o => s!"raised:{showOutcome o}"
+  | .storeErr l => if l then "storeerr:lis" else "storeerr:unl"
   | .broken => "broken"
 
 def b01 (b : Bool) : String := if b then "1" else "0"
@@ -49,6 +58,7 @@ def showAns : Ans → String
   | .ok => "model=ok"
   | .done .noop => "model=noop"
   | .done .stored => "model=stored"
+  | .done .skipped => "model=skipped"
   | .done .failed => "model=failed"
 
 def parseCase? : List String → Option St
